@@ -106,6 +106,16 @@ var bases = []string{
 	"- alert: A\n  expr: up ==\n      0\n\n- alert: B\n  # comment\n  expr: \"up == 1\"\n",
 }
 
+// rule lists with one physical line just under a 4 KiB boundary (readers that buffer lines in 4096-byte chunks),
+// followed by another rule: any indentation added by a wrapper pushes the line across the boundary
+func init() {
+	for _, n := range []int{4090, 4094, 4095} {
+		head := "  expr: up{job=\""
+		tail := "\"} == 0"
+		bases = append(bases, "- alert: Long\n"+head+strings.Repeat("a", n-len(head)-len(tail))+tail+"\n  for: 5m\n- record: after:long\n  expr: sum(up) by (job)\n")
+	}
+}
+
 type wrapOp struct {
 	name string
 }
@@ -242,7 +252,7 @@ func main() {
 	}
 	explore.Main(&explore.Config{
 		Property: "C19", Level: "exploration",
-		Rule: "(i) every strict-valid document among the styled (17 scalar styles x layouts) and semantic (all field deviations) generators with <=k deviations (k=2 quick, 3 thorough): strict parse vs relaxed parse, compared on kind, name, expr, line range and every position range of every field; (ii) 4 rule lists x every wrapper sequence of depth<=4 over {mapping key (indent 0/2/4, incl. a key named rules), sequence item, sibling keys before/after (scalar, block text, flow seq), groups wrapper} x {extra document before/after, leading ---}: relaxed parse of the wrapped file vs relaxed parse of the bare list displaced by the wrapper's line and column shift. distinct = distinct file bytes",
+		Rule: "(i) every strict-valid document among the styled (17 scalar styles x layouts) and semantic (all field deviations) generators with <=k deviations (k=2 quick, 3 thorough): strict parse vs relaxed parse, compared on kind, name, expr, line range and every position range of every field; (ii) 7 rule lists (3 with a physical line of 4090-4095 bytes, just under a 4 KiB buffer) x every wrapper sequence of depth<=4 over {mapping key (indent 0/2/4, incl. a key named rules), sequence item, sibling keys before/after (scalar, block text, flow seq), groups wrapper} x {extra document before/after, leading ---}: relaxed parse of the wrapped file vs relaxed parse of the bare list displaced by the wrapper's line and column shift. distinct = distinct file bytes",
 		Assumptions: []string{"documents that are not strict-valid are outside clause (i) and counted as trivial"},
 		Spaces: []*explore.Space{
 			{Name: "modes-styled", Bound: k, Body: modes(func(c *explore.Chooser) (string, []string, bool) {
